@@ -263,10 +263,7 @@ pub fn import_malformed<K: BoolKind>(mr: &MRef<K>, n: u32, data: &[u8]) -> Resul
 
 fn malformed_batch<K: BoolKind>(n: u32, order: &[u32], inputs: &[Vec<u8>]) -> Vec<Result<bool, String>> {
     let out = isolated(180, |w| {
-        unsafe {
-            let lim = libc::rlimit { rlim_cur: 4 << 30, rlim_max: 4 << 30 };
-            libc::setrlimit(libc::RLIMIT_AS, &lim);
-        }
+        limit_address_space(4 << 30);
         // one manager per child: a process must not create thousands of managers (see C16)
         let mr = malformed_manager::<K>(n, order);
         for (i, d) in inputs.iter().enumerate() {
